@@ -502,9 +502,9 @@ def nontrivial(r: CaseResult) -> bool:
 def signature(res: CaseResult) -> str:
     if res.viols:
         parts = res.viols[0][1].split(":")
-        # viol:escape:escape:<class> -> escape:<class>; viol:crash:... -> crash
-        if len(parts) >= 4 and parts[1] == "escape":
-            return "escape:" + parts[3].split(" ")[0]
+        # viol:escape-<boundary>:<class> -> escape-<boundary>:<class>; viol:crash:... -> crash
+        if len(parts) >= 3 and parts[1].startswith("escape-"):
+            return parts[1] + ":" + parts[2].split(" ")[0]
         return parts[1] if len(parts) > 1 else "viol"
     if res.crashed:
         return "crash"
@@ -527,6 +527,19 @@ def post(ctx, results):
             if " resp=" in line:
                 k3 = "ctl:" + line.split(" resp=", 1)[1].split(" ")[0]
                 h[k3] = h.get(k3, 0) + 1
+            if " acc=" in line:
+                k4 = "handshake:accepted=" + line.split(" acc=", 1)[1].split(" ")[0]
+                h[k4] = h.get(k4, 0) + 1
+            if " cm=" in line:
+                cm = line.split(" cm=", 1)[1].split(" ")[0]
+                if cm not in ("na", "-") and cm.count(":") == 2:
+                    t, idx, ttl = cm.split(":")
+                    t = int(t)
+                    ix = [] if idx == "-" else [int(x) for x in idx.split(".")]
+                    reach = t > 0 and len(ix) >= t and ttl == "1"
+                    bad = len(ix) < t or 0 in ix[:t] or len(set(ix[:t])) < len(ix[:t])
+                    k5 = "chunk-vs-cached-manifest:" + ("not-reaching-combine" if not reach else ("combine-throws" if bad else "combine-ok"))
+                    h[k5] = h.get(k5, 0) + 1
     for k, v in sorted(h.items()):
         ctx.hist(k, v)
     t = _last_tree
@@ -546,7 +559,7 @@ def spec() -> Spec:
         nontrivial=nontrivial,
         signature=signature,
         post=post,
-        budget={"quick": 120, "thorough": 2500},
+        budget={"quick": 80, "thorough": 2500},
         search_budget={"quick": 300, "thorough": 4000},
         per_case_timeout=60.0,
         batch=400,
@@ -567,5 +580,30 @@ def spec() -> Spec:
     )
 
 
+CODECS = "EphVerif.Proofs.C35Codecs"
+
+
 def run(tier, seed, replay=None):
-    return standard_check(spec(), tier, seed, replay)
+    sp = spec()
+    # Proofs/C35Codecs.lean re-uses C16 / C18 / C10 (decoders_total, the combine throw condition). When one of
+    # *those* properties' proof files does not build (their own check reports that), the termination-flow theorem
+    # of C35 is still checked on its own; a failure inside C35's own files is a broken obligation as usual.
+    try:
+        extract()
+    except Exception:
+        pass
+    ok, out = lake_build([CODECS])
+    own = [f for f in failing_theorems(out, []) if "C35" in f]
+    if ok or own or "C35" in "".join(re.findall(r"error: ([^\s:]+\.lean)", out)):
+        sp.proof_modules = ["EphVerif.Proofs.C35", CODECS]
+        return standard_check(sp, tier, seed, replay)
+    dep_note = "Proofs/C35Codecs.lean not checked in this run: a proof file of C10/C16/C18 it imports does not build: " + \
+               "; ".join(failing_theorems(out, []))[:400]
+    old_post = sp.post
+
+    def post2(ctx, results):
+        ctx.notes.append(dep_note)
+        if old_post:
+            old_post(ctx, results)
+    sp.post = post2
+    return standard_check(sp, tier, seed, replay)
